@@ -9,6 +9,8 @@ import Frrs.Proofs.Stanza
 import Frrs.Proofs.Replace
 import Frrs.Proofs.DataHeader
 import Frrs.Validate
+import Frrs.Proofs.Cli
+import Frrs.Proofs.Pipes
 namespace Frrs.C05
 open Frrs
 set_option linter.unusedSimpArgs false
@@ -189,5 +191,33 @@ theorem replace_text_with_no_data_refused (o : FOpts) (rules : List (Bytes × By
 
 /-- without `--no-data` the same option set runs (not vacuous) -/
 example : validOptions { blobRules := some [(b!"a", b!"b")] } false = true := by decide +kernel
+
+
+/-! ### the two flags on the command line (model of `parse_args`, Frrs/Cli.lean) -/
+
+/-- **The order of `--replace-text FILE` and `--no-data` on the command line cannot matter**: whichever is read first is
+    still set when the line ends, for every continuation of the line — so the option set that `validate_options` refuses
+    (`replace_text_with_no_data_refused`) is reached in either order. -/
+theorem content_rule_flags_survive_the_line (badRegex args : List Bytes) (s o : Cli.CliOpts)
+    (h : Cli.loop badRegex args s = .ok o) :
+    (s.noData = true → o.noData = true) ∧ (s.replaceText.isSome = true → o.replaceText.isSome = true) :=
+  ⟨Cli.noData_sticky badRegex args s o h, Cli.replaceText_sticky badRegex args s o h⟩
+
+example : ((Cli.okOf (Cli.parseArgs [] [b!"--no-data", b!"--replace-text", b!"r.txt", b!"--force"])).map fun o => (o.noData, o.replaceText))
+    = some (true, some b!"r.txt") := by decide +kernel
+example : ((Cli.okOf (Cli.parseArgs [] [b!"--replace-text", b!"r.txt", b!"--force", b!"--no-data"])).map fun o => (o.noData, o.replaceText))
+    = some (true, some b!"r.txt") := by decide +kernel
+
+
+/-! ### the exporter's command line (model of pipes.rs `build_fast_export_cmd`, Frrs/Pipes.lean) -/
+
+/-- **A run with `--replace-text` is always fed blob contents**: unless `--no-data` was typed (which `validate_options`
+    refuses next to `--replace-text`), the exporter is never started with `--no-data` — `--max-blob-size` and
+    `--strip-blobs-with-ids` on the same repository included (the case in which the tool adds `--no-data` on its own). -/
+theorem replace_text_run_exports_blob_data (c : Pipes.Caps) (o : Cli.CliOpts) (args : List Bytes)
+    (h : Pipes.exportCmd c o = some args) (hov : o.feOverride = none)
+    (hr : o.replaceText.isSome = true) (hn : o.noData = false) (hrefs : b!"--no-data" ∉ o.refs)
+    (hsrc : o.source ≠ b!"--no-data") : b!"--no-data" ∉ args :=
+  Pipes.content_rules_get_blob_data c o args h hov hr hn hrefs hsrc
 
 end Frrs.C05
